@@ -1036,3 +1036,7 @@ func init() {
 		},
 	})
 }
+
+func (o *c13Oracle) OnDeath(e *core.Engine, idx int, st *core.Step, deaths []string) []core.Violation {
+	return ReplicaDeath("C13", "restart-independence", e, st, deaths)
+}
